@@ -199,6 +199,22 @@ func runC15Nodes(c *Ctx) {
 		}
 		yInfo, _ := p.y.Network().Info()
 		route := gen.NetworkRoute{Route: gen.Route{Host: "localhost", Port: p.port, HandshakeVersion: yInfo.HandshakeVersion, ProtoVersion: yInfo.ProtoVersion}, Cookie: cb.xRoute}
+		if cb.xRoute == "" {
+			// peer name check after the handshake (network.connect): dialling Y's acceptor under another name must fail
+			// even with the right cookie, and must leave no connection behind
+			wrong := gen.Atom("somebodyelse@localhost")
+			if _, e := p.x.Network().GetNodeWithRoute(wrong, route); e == nil {
+				r.Violation("C15/peer-name-not-checked", fmt.Sprintf("connected to %s although the peer introduced itself as %s", wrong, p.y.Name()), cb)
+			} else {
+				r.Count("nodes.wrong-name.refused")
+			}
+			for _, nn := range p.x.Network().Nodes() {
+				if nn == wrong {
+					r.Violation("C15/peer-name-not-checked", "a connection under the wrong name is listed", cb)
+				}
+			}
+			waitGone(p.y, p.x.Name())
+		}
 		rn, err := p.x.Network().GetNodeWithRoute(p.y.Name(), route)
 		connected := err == nil
 		if connected {
